@@ -6,7 +6,7 @@ C13_MIXED_UNITS = C13_UNITS + ["Mesh/TetrahedralMeshTopologyKernel.cc", "Mesh/He
 def _c13_mut_count(base):
     nv, ne, nf, nc = BASE_COUNTS[base]
     return nv + ne + nf + nc + 15
-def _c13_shards(types, kinds, bases, pends, chunks=None, per=2):
+def _c13_shards(types, kinds, bases, pends, chunks=None, per=2, level1=True):
     out = []
     for t in types:
         for k in kinds:
@@ -14,12 +14,16 @@ def _c13_shards(types, kinds, bases, pends, chunks=None, per=2):
                 for p in pends:
                     n = (2 * _c13_mut_count(b) + per - 1) // per
                     for c in (range(n) if chunks is None else chunks):
-                        out.append({0: t, 1: k, 2: b, 3: p, 4: c, 5: 1 if c == 0 else 0})
+                        out.append({0: t, 1: k, 2: b, 3: p, 4: c, 5: 1 if (c == 0 and level1) else 0})
     return out
+# quick tier: chunks of the B_LOWDIM alphabet (2 per query; side 0 = source mutated: k = 0..25, side 1 = copy mutated: 26 + k) that cover every KIND of mutation on each side:
+# 0: delete_vertex(0,1); 5: delete_face(0), add_vertex; 7: swap_vertex_indices (two pairs); 9: collect_garbage; 10: clear(), write persistent int; 12: write private, position write;
+# 13: copy: delete_vertex(0,1); 18: copy: delete_face, add_vertex; 23: copy: clear(), write persistent int clone; 24: copy: write persistent bool clone, write held shared; 25: copy: write held private, position
+_C13_QUICK_CHUNKS = [0, 5, 7, 9, 10, 12, 13, 18, 23, 24, 25]
 _C13_BOUNDS = ("source = base mesh (B_LOWDIM: 5V/5E/1F with a dangling and a duplicate edge and an isolated vertex; B_TET: one tetrahedron) built through the real API, "
                "with 0-1 pending deferred deletion, symbolic vertex positions (Vec3i), shared int 's', private anonymous bool, persistent int 'p' and bool 'q' vertex properties "
                "with symbolic values, all handles held; target of kind 2 = B_TRI2 with its own shared 's', persistent 'p', private properties and held handles. After the copy: "
-               "observable snapshot/counts/flags/modes/positions equal, bottom-up oracle of the copy at symbolic probes (level 1 in chunk 0, level 0 otherwise), persistent clones "
+               "observable snapshot/counts/flags/modes/positions equal, bottom-up oracle of the copy at symbolic probes (quick: level 0 = the three incidence caches; thorough: level 1 = + derived circulators in chunk 0), persistent clones "
                "with equal values (symbolic probe), non-persistent not findable; then ONE mutation on either side, selector-dispatched 2 per query over: delete_vertex/edge/face/cell of "
                "EVERY entity, add_vertex, add_edge (new and duplicate), swap_vertex/edge/face/cell_indices (first/last, one more vertex pair), collect_garbage, clear(), "
                "symbolic-index symbolic-value writes to the persistent int / persistent bool / shared / private property, a symbolic position write; the other side's "
@@ -27,12 +31,12 @@ _C13_BOUNDS = ("source = base mesh (B_LOWDIM: 5V/5E/1F with a dangling and a dup
 PROPS["C13"] = dict(
   jobs=[
     dict(name="c13-indep", harness="C13_copy.cpp", entries=["harness_c13"], units=C13_UNITS, unwind=26, unwindset=["strlen.0:64", "bcmp.0:64"], eh=False, checks="mem", object_bits=13, witness_any=True,
-         shards={"quick": _c13_shards([1], [0, 2], [B_LOWDIM], [1]),
-                 "thorough": _c13_shards([0, 1], [0, 2], [B_LOWDIM], [0, 1, 2]) + _c13_shards([0, 1], [1, 4], [B_LOWDIM], [1]) + _c13_shards([1], [0, 2], [B_TET], [1])},
+         shards={"quick": _c13_shards([1], [0], [B_LOWDIM], [1], chunks=_C13_QUICK_CHUNKS, level1=False),
+                 "thorough": _c13_shards([0, 1], [0, 2], [B_LOWDIM], [1]) + _c13_shards([1], [0, 2], [B_LOWDIM], [0, 2]) + _c13_shards([1], [1, 4], [B_LOWDIM], [1]) + _c13_shards([1], [0, 2], [B_TET], [1])},
          timeout={"quick": 300, "thorough": 1200}, mem_gb=6,
-         bounds=_C13_BOUNDS + "; quick: geometry kernel (its copy/assignment runs TopologyKernel's and ResourceManager's), copy construction and assignment onto a non-empty mesh, B_LOWDIM with one pending deleted edge; thorough: both mesh types, pending deletion none/edge/vertex, + assignment onto an empty mesh and copy of a copy, + B_TET (geometry kernel)"),
+         bounds=_C13_BOUNDS + "; quick: geometry kernel (its copy/assignment runs TopologyKernel's and ResourceManager's), copy construction and assignment onto a non-empty mesh, B_LOWDIM with one pending deleted edge; thorough (not measured as a whole): all 26 chunks for both mesh types with a pending deleted edge, geometry kernel also with no / a pending deleted vertex, + assignment onto an empty mesh and copy of a copy, + B_TET (geometry kernel, pending deleted edge)"),
     dict(name="c13-kinds", harness="C13_copy.cpp", entries=["harness_c13"], units=C13_UNITS, unwind=26, unwindset=["strlen.0:64", "bcmp.0:64"], eh=False, checks="mem", object_bits=13, witness_any=True,
-         shards={"quick": _c13_shards([0, 1], [1, 3, 4], [B_LOWDIM], [0], chunks=[0]) + _c13_shards([0], [0, 2], [B_LOWDIM], [1], chunks=[0]),
+         shards={"quick": _c13_shards([0, 1], [1, 3, 4], [B_LOWDIM], [0], chunks=[0], level1=False) + _c13_shards([0], [0, 2], [B_LOWDIM], [1], chunks=[0], level1=False),
                  "thorough": _c13_shards([0, 1], [1, 3, 4], [B_TET], [1], chunks=[0]) + _c13_shards([0, 1], [3], [B_LOWDIM], [1, 2], chunks=[0])},
          timeout={"quick": 300, "thorough": 1200}, mem_gb=6,
          bounds=_C13_BOUNDS + "; assignment onto an empty mesh, self-assignment, copy of a copy (intermediate destroyed before the checks): equality checks + first chunk of mutations (delete_vertex of vertices 0 and 1); quick also runs that chunk for the plain TopologyKernel with copy construction / assignment onto a non-empty mesh"),
